@@ -72,8 +72,8 @@ class Modules:
 		"""
 		if module_path not in self.__modules:
 			self.__load_libraries(module_path)
-			self.__modules[module_path] = self.__loader.load(ModulePath(module_path, language))
 			try:
+				self.__modules[module_path] = self.__loader.load(ModulePath(module_path, language))
 				self.__load_dependencies(self.__modules[module_path])
 				self.__loader.preprocess(self.__modules[module_path])
 			except Errors.Error:
